@@ -408,6 +408,20 @@ def _enum(k, ops=BOUNDARY_OPS, drv="full"):
     return gen
 
 
+FEATURE_OPS = [["ack", True], ["ack", False], ["set_auto_ack", False, 0], ["auto_ack", False], ["auto_ack", 0x3E], ["dynamic_payloads", False],
+               ["set_dynamic_payloads", False, 0], ["load_ack", B("aa"), 0], ["load_ack", B("bb"), 1], ["listen", True], ["listen", False]]
+
+
+def _enum_features(lo, hi, drv="full"):
+    """every word of length lo..hi over the calls that share the FEATURE / EN_AA / DYNPD registers (ACK payloads, auto-ack
+    and dynamic payloads globally and on pipe 0, load_ack(), role changes): each documents what it switches on 'when necessary'"""
+    def gen():
+        for k in range(lo, hi + 1):
+            for word in itertools.product(FEATURE_OPS, repeat=k):
+                yield {"drv": drv, "plus": True, "ops": [list(o) for o in word] + TAIL}
+    return gen
+
+
 def strategy(drv="full"):
     from hypothesis import strategies as st
     lite = drv == "lite"
@@ -473,5 +487,7 @@ def strategy(drv="full"):
 
 def parts(tier):
     if tier == "quick":
-        return [Part("pairs", "enum", _enum(2), exhaustive=True), Part("generated", "gen", strategy, n=1500)]
-    return [Part("triples", "enum", _enum(3), exhaustive=True), Part("generated", "gen", strategy, n=40000)]
+        return [Part("pairs", "enum", _enum(2), exhaustive=True), Part("feature-calls-depth3-4", "enum", _enum_features(3, 4), exhaustive=True),
+                Part("generated", "gen", strategy, n=1500)]
+    return [Part("triples", "enum", _enum(3), exhaustive=True), Part("feature-calls-depth3-5", "enum", _enum_features(3, 5), exhaustive=True),
+            Part("generated", "gen", strategy, n=40000)]
